@@ -1,9 +1,9 @@
-use crate::solvers::common::{DisplayValue, LpSolution, SolverError, format_float};
+use crate::solvers::common::{DisplayValue, LpSolution, SolutionStatus, SolverError, format_float};
 use crate::transformers::LinearModel;
 use crate::{
     Assignment, Comparison, OptimizationType, VariableType, make_constraints_map_from_assignment,
 };
-use microlp::{ComparisonOp, Error, OptimizationDirection, Problem, SolveOptions};
+use microlp::{ComparisonOp, Error, OptimizationDirection, Problem, SolveOptions, Status};
 use serde::{Deserialize, Serialize};
 use std::fmt::{Display, Formatter};
 use std::time::Duration;
@@ -179,6 +179,15 @@ pub fn solve_milp_lp_problem_with(
 
     match problem.solve_with(solve_options) {
         Ok(s) => {
+            // A limit that fires is not an error for MicroLP: it hands back whatever it
+            // has, and the status says what that is.
+            let status = match s.status() {
+                Status::Optimal => SolutionStatus::Optimal,
+                Status::Feasible => SolutionStatus::Feasible,
+                // no feasible point was found yet: the values are the search's
+                // working point (possibly fractional and infeasible), not a solution
+                Status::Interrupted => return Err(SolverError::LimitReached),
+            };
             let assignment = microlp_vars
                 .iter()
                 .zip(variables)
@@ -204,7 +213,8 @@ pub fn solve_milp_lp_problem_with(
                 assignment,
                 s.objective() + lp.objective_offset(),
                 constraints,
-            ))
+            )
+            .with_status(status))
         }
         Err(e) => Err(match e {
             Error::InternalError(s) => SolverError::Other(s),
